@@ -3,9 +3,11 @@
 //  1. pure layer: VerifHasNeededPermissions for every mode x every pattern of the 12 low P bits x R 2..6;
 //  2. file layer: documents encrypted by pdfcpu (RC4-40, RC4-128, AES-128, AES-256 on PDF 1.7 and on
 //     PDF 2.0) with every combination of bits 4,5,10,11, opened through api.ReadContext with
-//     conf.Cmd = mode and only the non-empty user password (must be refused iff a needed right is
-//     denied) and with the owner password (never refused);
-//  3. a few public API functions end-to-end.
+//     conf.Cmd = mode under every credential PLACEMENT a caller can choose (placements, below): a
+//     caller who does not hold the owner password is a user whatever he puts into the owner slot
+//     (refused iff a needed right is denied); the correct owner password in the owner slot is never
+//     refused;
+//  3. a few public API functions end-to-end under the same placements.
 //
 // What "the document denies extraction / modification" means is taken from ISO 32000-1 Table 22
 // (and 32000-2 Table 22), not from pdfcpu.
@@ -18,6 +20,7 @@ import (
 	"path/filepath"
 	"sort"
 	"strings"
+	"sync"
 	"sync/atomic"
 
 	"github.com/pdfcpu/pdfcpu/pkg/api"
@@ -287,6 +290,64 @@ func (a algo) conf(upw, opw string) *model.Configuration {
 	return c
 }
 
+// placement is one way of filling the two password slots of a configuration.
+type placement struct {
+	Name string
+	U, O string
+	// Holder: "user" = the caller does not hold the owner password (the owner slot is empty or holds
+	// something that is not the owner password): permissions apply. "owner" = the correct owner
+	// password sits in the owner slot: never refused. "misplaced" = the owner password sits in the
+	// user slot only: the caller holds it, so proceeding is no violation, and refusing (wrong
+	// password) is always safe: observed, not judged.
+	Holder string
+	// Core placements are run for every cell in every tier; of the others the quick tier runs one per
+	// cell (rotating), the thorough tier all.
+	Core bool
+}
+
+func placements(upw, opw string, thorough bool) []placement {
+	ps := []placement{
+		{"user-only", upw, "", "user", true},
+		{"user-both-slots", upw, upw, "user", false},
+		{"owner-only", "", opw, "owner", true},
+		{"owner+user", upw, opw, "owner", false},
+		{"user+wrong-owner", upw, "not-the-" + opw, "user", false},
+		{"owner-in-user-slot", opw, "", "misplaced", false},
+	}
+	if thorough {
+		// near misses of the owner password are as wrong as any other guess
+		ps = append(ps,
+			placement{"user+owner-prefix", upw, opw[:len(opw)-1], "user", false},
+			placement{"user+owner-othercase", upw, strings.ToUpper(opw), "user", false},
+			placement{"user+owner-padded", upw, opw + " ", "user", false},
+			placement{"owner+wrong-user", "not-the-" + upw, opw, "owner", false},
+		)
+	}
+	return ps
+}
+
+// pickPlacements gives the placements of one cell: all core ones, and (quick) one further placement
+// chosen by k, or (thorough) all. k runs over algorithm + bit combination + mode index + seed, so
+// every (algorithm, bits) document meets every placement with about a quarter of the modes and every
+// (mode, bits) cell meets every placement on one of the five algorithms.
+func pickPlacements(ps []placement, thorough bool, k int) []placement {
+	if thorough {
+		return ps
+	}
+	var out, more []placement
+	for _, p := range ps {
+		if p.Core {
+			out = append(out, p)
+		} else {
+			more = append(more, p)
+		}
+	}
+	if len(more) > 0 {
+		out = append(out, more[k%len(more)])
+	}
+	return out
+}
+
 func main() {
 	vk.Run("C26", "exploration", func(t *vk.T) {
 		api.DisableConfigDir()
@@ -335,7 +396,7 @@ func main() {
 			t.Broken("permission table has only %d rows", len(rows))
 		}
 		t.Exhaustive(true)
-		t.Rule("every mode of pdfcpu's permission table x (pure layer) all 4096 patterns of the 12 low P bits x R 2..6; (file layer) all 16 combinations of bits 4,5,10,11 x {RC4-40, RC4-128, AES-128, AES-256/PDF1.7, AES-256/PDF2.0} documents encrypted by pdfcpu, opened with the user password only and with the owner password; non-trivial = the mode needs a right")
+		t.Rule("every mode of pdfcpu's permission table x (pure layer) all 4096 patterns of the 12 low P bits x R 2..6; (file layer) all 16 combinations of bits 4,5,10,11 x {RC4-40, RC4-128, AES-128, AES-256/PDF1.7, AES-256/PDF2.0} documents encrypted by pdfcpu, opened under credential placements {user pw only; user pw in both slots; user pw + wrong non-empty owner pw; owner pw only; owner pw + user pw; owner pw in the user slot only (observed, not judged)} — quick: user-only and owner-only for every (algorithm, bits, mode) cell plus one of the other four in rotation over algorithm+bits+mode+seed, thorough: all placements plus near misses of the owner password; a caller without the owner password is a user (refused iff a needed right is denied), the owner password in the owner slot is never refused; non-trivial = the mode needs a right")
 		t.Assume("meaning of the permission bits = pdfcpu's documented layout (PermissionsList / the property's 'revision 2 and revision >= 3 bit layouts'): R2 extract<->bit 5, modify<->bit 4; R>=3 extract<->bit 10, modify<->bit 11. Cells where ISO 32000-1 Table 22 (copy/extract = bit 5, content modification = bit 4) would decide differently are counted under observed.iso_table22_deviating_cells, not judged")
 		t.Assume("BOOKLET, MERGEAPPEND, MERGECREATE, MERGECREATEZIP never run on encrypted input (ErrEncrypted, documented): counted as refused, never as a violation of 'granted rights proceed'")
 
@@ -408,6 +469,28 @@ func main() {
 		revSeen := map[int]int64{}
 		revs := make([]int, len(files))
 		var fileEvals, fileNontrivial, ownerOpens, errEncrypted, bothPW int64
+		thorough := !t.Quick()
+		plcs := placements(upw, opw, thorough)
+		seedK := int(uint64(t.Seed) % 4)
+		var plMu sync.Mutex
+		plOutcomes := map[string]int64{}
+		plCount := func(name string, err error) {
+			o := "proceeds"
+			switch {
+			case err == nil:
+			case errors.Is(err, pdfcpu.ErrPermissionDenied):
+				o = "ErrPermissionDenied"
+			case errors.Is(err, pdfcpu.ErrWrongPassword):
+				o = "ErrWrongPassword"
+			case errors.Is(err, pdfcpu.ErrEncrypted):
+				o = "ErrEncrypted"
+			default:
+				o = "other-error"
+			}
+			plMu.Lock()
+			plOutcomes[name+"/"+o]++
+			plMu.Unlock()
+		}
 		vk.Parallel(len(files), func(fi int) {
 			f := files[fi]
 			conf := f.a.conf(upw, opw)
@@ -443,44 +526,64 @@ func main() {
 			if uint16(p) != uint16(f.perm) {
 				t.Broken("P written %#x, requested %#x", p, uint16(f.perm))
 			}
-			for _, rw := range rows {
+			for mi, rw := range rows {
 				if needsBothPasswords[rw.Mode] {
 					atomic.AddInt64(&bothPW, 1)
 					continue
 				}
 				v, needs := expect(rw.Mode, rw.Cls, r, p)
-				_, err := open(rw.Mode, upw, "")
-				atomic.AddInt64(&fileEvals, 1)
-				if needs != "none" {
-					atomic.AddInt64(&fileNontrivial, 1)
-				}
-				got := "ok"
-				refused := err != nil
-				switch {
-				case err == nil:
-				case errors.Is(err, pdfcpu.ErrPermissionDenied):
-					got = "ErrPermissionDenied"
-				case errors.Is(err, pdfcpu.ErrEncrypted) && noEncryptedInput[rw.Mode]:
-					got = "ErrEncrypted"
-					atomic.AddInt64(&errEncrypted, 1)
-				default:
-					got = err.Error()
-					t.Violate(fmt.Sprintf("file/%s/mode=%s/unexpected-error", rclass(r), rw.Name), fmt.Sprintf("%s %s user-pw-only P=%#x: %v", f.a.Name, rw.Name, uint16(p), err),
-						caseInfo{"file", rw.Name, needs, r, p, f.a.Name, v.String(), got})
-					continue
-				}
-				if got == "ErrEncrypted" {
-					continue // not run on encrypted input at all: refused whatever the permissions
-				}
-				judge(t, "file", rw.Mode, rw.Name, needs, r, p, v, refused, f.a.Name, got, counts)
-				// owner password: never restricted
-				_, err = open(rw.Mode, "", opw)
-				atomic.AddInt64(&fileEvals, 1)
-				if err != nil && !(errors.Is(err, pdfcpu.ErrEncrypted) && noEncryptedInput[rw.Mode]) {
-					t.Violate(fmt.Sprintf("file/%s/owner-password-restricted/%s", rclass(r), ifs(errors.Is(err, pdfcpu.ErrPermissionDenied), "ErrPermissionDenied", "other-error")),
-						fmt.Sprintf("%s %s opened with the owner password, P=%#x: %v", f.a.Name, rw.Name, uint16(p), err), caseInfo{"file-owner", rw.Name, needs, r, p, f.a.Name, "must-allow", err.Error()})
-				} else {
-					atomic.AddInt64(&ownerOpens, 1)
+				k := fi/16 + fi%16 + mi + seedK
+				sel := pickPlacements(plcs, thorough, k)
+				for _, pl := range sel {
+					_, err := open(rw.Mode, pl.U, pl.O)
+					atomic.AddInt64(&fileEvals, 1)
+					if needs != "none" {
+						atomic.AddInt64(&fileNontrivial, 1)
+					}
+					plCount(pl.Name, err)
+					layer := "file"
+					if pl.Name != "user-only" {
+						layer = "file/creds=" + pl.Name
+					}
+					encOnly := errors.Is(err, pdfcpu.ErrEncrypted) && noEncryptedInput[rw.Mode]
+					if encOnly {
+						atomic.AddInt64(&errEncrypted, 1)
+						continue // not run on encrypted input at all: refused whatever the permissions
+					}
+					switch pl.Holder {
+					case "user":
+						got := "ok"
+						switch {
+						case err == nil:
+						case errors.Is(err, pdfcpu.ErrPermissionDenied):
+							got = "ErrPermissionDenied"
+						default:
+							got = err.Error()
+							t.Violate(fmt.Sprintf("%s/%s/mode=%s/unexpected-error", layer, rclass(r), rw.Name), fmt.Sprintf("%s %s creds=%s P=%#x: %v", f.a.Name, rw.Name, pl.Name, uint16(p), err),
+								caseInfo{layer, rw.Name, needs, r, p, f.a.Name, v.String(), got})
+							continue
+						}
+						judge(t, layer, rw.Mode, rw.Name, needs, r, p, v, err != nil, f.a.Name, got, counts)
+					case "owner":
+						// the correct owner password in the owner slot: never restricted
+						if err != nil {
+							key := fmt.Sprintf("file/%s/owner-password-restricted/%s", rclass(r), ifs(errors.Is(err, pdfcpu.ErrPermissionDenied), "ErrPermissionDenied", "other-error"))
+							if pl.Name != "owner-only" {
+								key = fmt.Sprintf("file/creds=%s/%s/owner-password-restricted/%s", pl.Name, rclass(r), ifs(errors.Is(err, pdfcpu.ErrPermissionDenied), "ErrPermissionDenied", "other-error"))
+							}
+							t.Violate(key, fmt.Sprintf("%s %s opened with the owner password in the owner slot (creds=%s), P=%#x: %v", f.a.Name, rw.Name, pl.Name, uint16(p), err),
+								caseInfo{"file-owner/" + pl.Name, rw.Name, needs, r, p, f.a.Name, "must-allow", err.Error()})
+						} else {
+							atomic.AddInt64(&ownerOpens, 1)
+						}
+					default:
+						// owner password in the user slot only: the caller holds the owner password; pdfcpu may
+						// refuse (wrong user password) or proceed — anything but a crash is fine
+						if err != nil && strings.HasPrefix(err.Error(), "panic:") {
+							t.Violate(fmt.Sprintf("file/creds=%s/%s/panic", pl.Name, rclass(r)), fmt.Sprintf("%s %s creds=%s: %v", f.a.Name, rw.Name, pl.Name, err),
+								caseInfo{layer, rw.Name, needs, r, p, f.a.Name, "any", err.Error()})
+						}
+					}
 				}
 			}
 		})
@@ -491,12 +594,25 @@ func main() {
 		t.Extra("file_layer_outcomes", snapshot())
 		t.Extra("file_layer_revisions_written_by_pdfcpu", revSeen)
 		t.Count("file_layer_cases", fileEvals)
+		t.Extra("file_layer_outcomes_by_credential_placement", plOutcomes)
+		for _, pl := range plcs {
+			var n int64
+			for k, c := range plOutcomes {
+				if strings.HasPrefix(k, pl.Name+"/") {
+					n += c
+				}
+			}
+			t.Count("file_layer_placement/"+pl.Name, n)
+			if n == 0 {
+				t.Broken("credential placement %s was never exercised", pl.Name)
+			}
+		}
 		t.Count("file_layer_encrypted_files", int64(len(files)))
 		t.Count("file_layer_owner_pw_opens", ownerOpens)
 		t.Count("file_layer_ErrEncrypted_modes", errEncrypted)
 		t.Count("file_layer_skipped_mode_needs_both_passwords", bothPW)
 
-		// ---- 3. a few public API functions end to end (user password only)
+		// ---- 3. a few public API functions end to end (every credential placement but the misplaced one)
 		type apiCall struct {
 			name  string
 			needs string
@@ -514,6 +630,11 @@ func main() {
 			{"ValidateFile", "none", func(in, out string, c *model.Configuration) error { return api.ValidateFile(in, c) }},
 		}
 		var apiEvals int64
+		type apiJob struct {
+			fi, ci int
+			pl     placement
+		}
+		var jobs []apiJob
 		for fi, f := range files {
 			combo := fi % 16
 			if combo != 0 && combo != 15 { // all four bits clear / all four set
@@ -523,23 +644,37 @@ func main() {
 				if c.name == "AddKeywordsFile" && strings.Contains(f.a.Name, "PDF2.0") {
 					continue // PDF 2.0 documents have no Info dictionary to add keywords to
 				}
-				out := filepath.Join(dir, fmt.Sprintf("api-%d-%d", fi, ci))
-				_ = os.MkdirAll(out, 0o755)
-				conf := f.a.conf(upw, "")
-				err := safely(func() error { return c.run(f.path, out, conf) })
-				apiEvals++
-				wantDeny := combo == 0 && c.needs != "none"
-				denied := errors.Is(err, pdfcpu.ErrPermissionDenied)
-				ci2 := caseInfo{"api", c.name, c.needs, revs[fi], int(f.perm), f.a.Name, ifs(wantDeny, "must-deny", "must-allow"), fmt.Sprint(err)}
-				switch {
-				case wantDeny && !denied:
-					t.Violate(fmt.Sprintf("api/%s/%s/denied-right-but-%s", c.name, rclass(revs[fi]), ifs(err == nil, "proceeds", "other-error")), fmt.Sprintf("%s on %s with all of bits 4,5,10,11 clear, user password only: %v", c.name, f.a.Name, err), ci2)
-				case !wantDeny && err != nil:
-					t.Violate(fmt.Sprintf("api/%s/%s/granted-right-but-fails", c.name, rclass(revs[fi])), fmt.Sprintf("%s on %s with bits 4,5,10,11 %s, user password only: %v", c.name, f.a.Name, ifs(combo == 15, "set", "clear"), err), ci2)
+				for _, pl := range plcs {
+					if pl.Holder == "misplaced" {
+						continue // observed in the file layer only
+					}
+					jobs = append(jobs, apiJob{fi, ci, pl})
 				}
-				os.RemoveAll(out)
 			}
 		}
+		vk.Parallel(len(jobs), func(ji int) {
+			j := jobs[ji]
+			f, c, pl, fi, combo := files[j.fi], calls[j.ci], j.pl, j.fi, j.fi%16
+			out := filepath.Join(dir, fmt.Sprintf("api-%d-%d-%d", fi, j.ci, ji))
+			_ = os.MkdirAll(out, 0o755)
+			defer os.RemoveAll(out)
+			conf := f.a.conf(pl.U, pl.O)
+			err := safely(func() error { return c.run(f.path, out, conf) })
+			atomic.AddInt64(&apiEvals, 1)
+			wantDeny := combo == 0 && c.needs != "none" && pl.Holder == "user"
+			denied := errors.Is(err, pdfcpu.ErrPermissionDenied)
+			ci2 := caseInfo{"api/creds=" + pl.Name, c.name, c.needs, revs[fi], int(f.perm), f.a.Name, ifs(wantDeny, "must-deny", "must-allow"), fmt.Sprint(err)}
+			name := c.name
+			if pl.Name != "user-only" {
+				name += "/creds=" + pl.Name
+			}
+			switch {
+			case wantDeny && !denied:
+				t.Violate(fmt.Sprintf("api/%s/%s/denied-right-but-%s", name, rclass(revs[fi]), ifs(err == nil, "proceeds", "other-error")), fmt.Sprintf("%s on %s with all of bits 4,5,10,11 clear, creds=%s (caller does not hold the owner password): %v", c.name, f.a.Name, pl.Name, err), ci2)
+			case !wantDeny && err != nil:
+				t.Violate(fmt.Sprintf("api/%s/%s/granted-right-but-fails", name, rclass(revs[fi])), fmt.Sprintf("%s on %s with bits 4,5,10,11 %s, creds=%s: %v", c.name, f.a.Name, ifs(combo == 15, "set", "clear"), pl.Name, err), ci2)
+			}
+		})
 		t.EvalBulk(apiEvals, apiEvals)
 		t.Count("api_layer_calls", apiEvals)
 		t.Count("iso_table22_deviating_cells", isoDeviation.Load())
